@@ -1,5 +1,6 @@
 import Martian.Determinism
 import Martian.DeterminismAccum
+import Martian.DeterminismAccum2
 import Driver.Util
 
 /-! Line-protocol handler for property C10.
@@ -9,6 +10,9 @@ import Driver.Util
   accum <entries>        entries: key:done:changed:hasErr:err:val,…  (flags 0|1, others hex) or `.`
                          reply: done changed errs(hex list) vals(key=val;…) errText nodup
                                 + the same for the loop in the order GIVEN (accumulateIn): errsIn valsIn
+  fsc <tree> <initial hex list>   tree ::= L <hex list> | S <c hex> <ins 0|1> tree | M <c hex> tree | N <n> tree^n
+                         reply: the set after STree.walk, sorted (hex list), and sorted S ∪ free
+  callmode <kinds>       kinds: key:kind,…  kind ∈ x(not a source) s a m n u     reply: callMode callModeIn
   firstfail <entries>    entries: key:ok:text,…   reply: vals(key=val;…) err(`none`|`some hex`) nodup
 -/
 namespace Driver.C10
@@ -36,6 +40,42 @@ partial def tree : List String → Option (JTree × List String)
     let (es, r) ← go n r
     pure (es.foldr (fun e acc => JTree.ocons e.1 e.2.1 e.2.2 acc) .onil, r)
   | _ => none
+
+partial def stree : List String → Option (STree × List String)
+  | "L" :: cs :: r => do let cs ← parseHexList cs; pure (.leaf (cs.map (·.map UInt8.toNat)), r)
+  | "S" :: c :: ins :: r => do
+    let c ← nats c
+    let (t, r) ← stree r
+    pure (.split c (ins == "1") t, r)
+  | "M" :: c :: r => do
+    let c ← nats c
+    let (t, r) ← stree r
+    pure (.merge c t, r)
+  | "N" :: n :: r => do
+    let n ← n.toNat?
+    let rec go : Nat → List String → Option (List STree × List String)
+      | 0, r => some ([], r)
+      | m + 1, r => do
+        let (t, r) ← stree r
+        let (ts, r) ← go m r
+        pure (t :: ts, r)
+    let (ts, r) ← go n r
+    pure (ts.foldr STree.cons .nil, r)
+  | _ => none
+
+def modeOfKind : String → Option (Option Mode)
+  | "x" => some none
+  | "s" => some (some .single)
+  | "a" => some (some .array)
+  | "m" => some (some .map)
+  | "n" => some (some .null)
+  | "u" => some (some .unknown)
+  | _ => none
+
+def modeStr : Mode → String
+  | .single => "simple" | .array => "array" | .map => "map" | .null => "null" | .unknown => "unknown"
+
+def dedup (l : List Key) : List Key := l.foldl (fun acc k => if acc.contains k then acc else acc ++ [k]) []
 
 def kvList (l : List (Key × Bytes)) : String :=
   if l.isEmpty then "." else ";".intercalate (l.map fun p => hexOfNats p.1 ++ "=" ++ hexOfNats p.2)
@@ -76,6 +116,20 @@ def handle (op : String) (args : List String) : Option String :=
     let hl (x : List Bytes) := hexList (x.map (·.map UInt8.ofNat))
     pure (" ".intercalate [boolStr a.done, boolStr a.changed, hl a.errs, kvList a.vals,
       hexOfNats (errorListText a.errs), boolStr (nodupKeys l), hl b.errs, kvList b.vals])
+  | "fsc", [t, init] => do
+    let init ← parseHexList init
+    let init := init.map (·.map UInt8.toNat)
+    match stree (t.splitOn " ") with
+    | some (t, []) =>
+      let hl (x : List Key) := hexList ((sortKeys (dedup x)).map (·.map UInt8.ofNat))
+      pure (hl (t.walk (dedup init)) ++ " " ++ hl (init ++ t.free))
+    | _ => none
+  | "callmode", [es] => do
+    let es ← entries es
+    let l ← es.mapM fun f => match f with
+      | [k, kind] => do let k ← nats k; let m ← modeOfKind kind; pure (k, m)
+      | _ => none
+    pure (modeStr (callMode l) ++ " " ++ modeStr (callModeIn l) ++ " " ++ boolStr (nodupKeys l))
   | "firstfail", [es] => do
     let es ← entries es
     let l ← es.mapM fun f => match f with
